@@ -1,4 +1,539 @@
 package main
 
-func cmdCheck(args []string) int    { return 2 }
-func cmdSelftest(args []string) int { return 2 }
+import (
+	"bytes"
+	"encoding/json"
+	"fmt"
+	"os"
+	"os/exec"
+	"path/filepath"
+	"regexp"
+	"sort"
+	"strconv"
+	"strings"
+	"time"
+)
+
+type KnownFinding struct {
+	Property   string `json:"property"`
+	Obligation string `json:"obligation"` // claim key
+	What       string `json:"what"`
+	Witness    string `json:"witness,omitempty"`
+	Standin    string `json:"standin,omitempty"` // for findings of bounded stand-ins: the finding id it prints
+}
+
+type KnownFile struct {
+	Findings []KnownFinding `json:"findings"`
+	Fixed    []string       `json:"fixed"`
+}
+
+var reCallN = regexp.MustCompile(`call\d+\(`)
+var rePanicN = regexp.MustCompile(`panic\d+\(`)
+var reBlk = regexp.MustCompile(`\.?return@b\d+`)
+var reAssertAt = regexp.MustCompile(`\.at_call\d+\(`)
+
+// claimKey strips the parts of an obligation name that depend on instruction numbering.
+func claimKey(name string) string {
+	s := reCallN.ReplaceAllString(name, "call(")
+	s = rePanicN.ReplaceAllString(s, "panic(")
+	s = reBlk.ReplaceAllString(s, "")
+	s = reAssertAt.ReplaceAllString(s, ".at_call(")
+	return s
+}
+
+type Evidence struct {
+	PropertyID  string         `json:"property_id"`
+	Tier        string         `json:"tier"`
+	Seed        int            `json:"seed"`
+	Level       string         `json:"level"`
+	Coverage    map[string]any `json:"coverage"`
+	Assumptions []string       `json:"assumptions"`
+	WallS       float64        `json:"wall_s"`
+	Violations  int            `json:"violations"`
+}
+
+func readJSON(path string, v any) error {
+	b, err := os.ReadFile(path)
+	if err != nil {
+		return err
+	}
+	return json.Unmarshal(b, v)
+}
+
+func cmdCheck(args []string) int {
+	if len(args) < 2 {
+		fmt.Fprintln(os.Stderr, "usage: govc check <PROP> <quick|thorough> [--update-baseline]")
+		return 2
+	}
+	prop, tier := args[0], args[1]
+	update := len(args) > 2 && args[2] == "--update-baseline"
+	seed := 0
+	if s := os.Getenv("VERIF_SEED"); s != "" {
+		seed, _ = strconv.Atoi(s)
+	}
+	t0 := time.Now()
+	var cfg PropConfig
+	if err := readJSON(filepath.Join(verifDir, "props", prop+".json"), &cfg); err != nil {
+		fmt.Fprintln(os.Stderr, "config:", err)
+		return 2
+	}
+	e := NewEngine()
+	if err := e.cs.LoadSpecDir(filepath.Join(verifDir, "specs")); err != nil {
+		fmt.Fprintln(os.Stderr, "specs:", err)
+		return 2
+	}
+	if err := e.cs.LoadDir(filepath.Join(verifDir, "lemmas"), ".lem", false); err != nil {
+		fmt.Fprintln(os.Stderr, "lemmas:", err)
+		return 2
+	}
+	if ov := os.Getenv("GOVC_OVERLAY"); ov != "" {
+		// selftest: {"<abs path>": "<file with replacement content>"}
+		var m map[string]string
+		if err := readJSON(ov, &m); err != nil {
+			fmt.Fprintln(os.Stderr, "overlay:", err)
+			return 2
+		}
+		e.overlay = map[string][]byte{}
+		for k, v := range m {
+			b, err := os.ReadFile(v)
+			if err != nil {
+				fmt.Fprintln(os.Stderr, "overlay:", err)
+				return 2
+			}
+			e.overlay[k] = b
+		}
+	}
+	if err := e.Load(cfg.Packages); err != nil {
+		fmt.Fprintln(os.Stderr, "ENGINE FAULT: load:", err)
+		return 2
+	}
+	if len(e.cs.Errors) > 0 {
+		for _, er := range e.cs.Errors {
+			fmt.Fprintln(os.Stderr, "contract error:", er)
+		}
+		return 2
+	}
+	loadS := time.Since(t0).Seconds()
+	timeout := 20
+	if tier == "thorough" {
+		timeout = 120
+	}
+	scratch := scratchDir()
+	defer os.RemoveAll(scratch)
+
+	cons := e.ContractsFor(prop)
+	var obls []*Obligation
+	fnErrors := map[string][]string{}
+	notes := map[string]bool{}
+	var funcsUnder []string
+	for _, c := range cons {
+		fn := e.funcs[c.Key]
+		if fn == nil {
+			fnErrors[shortName(c.Key)] = []string{"contract target does not exist in the current source"}
+			continue
+		}
+		funcsUnder = append(funcsUnder, shortName(c.Key))
+		os, errs, ns := e.VerifyFunction(fn, c)
+		if len(errs) > 0 {
+			fnErrors[shortName(c.Key)] = errs
+			continue
+		}
+		for _, n := range ns {
+			notes[n] = true
+		}
+		obls = append(obls, os...)
+	}
+	// lemmas
+	nLemma := 0
+	for _, l := range e.cs.Lemmas {
+		for _, p := range l.Props {
+			if p == prop {
+				lo, errs := e.LemmaObligations(l)
+				if len(errs) > 0 {
+					fnErrors["lemma:"+l.Name] = errs
+				}
+				obls = append(obls, lo...)
+				nLemma += len(lo)
+			}
+		}
+	}
+	// canaries: deliberately false contracts that must NOT verify
+	canaryObls, canaryNames := e.CanaryObligations(prop)
+	results := solveAll(append(append([]*Obligation{}, obls...), canaryObls...), scratch, timeout, 16)
+	mainRes := results[:len(obls)]
+	canRes := results[len(obls):]
+
+	// baseline
+	basePath := filepath.Join(verifDir, "baseline", prop+".json")
+	var baseline []string
+	haveBase := readJSON(basePath, &baseline) == nil
+	baseSet := map[string]bool{}
+	for _, b := range baseline {
+		baseSet[b] = true
+	}
+	var known KnownFile
+	_ = readJSON(filepath.Join(verifDir, "known_findings.json"), &known)
+	knownSet := map[string]KnownFinding{}
+	for _, k := range known.Findings {
+		if k.Property == prop {
+			knownSet[k.Obligation] = k
+		}
+	}
+
+	claimOK := map[string]bool{}
+	claimSeen := map[string]bool{}
+	bySolver := map[string]int{}
+	solverTime := 0.0
+	type slow struct {
+		Name string  `json:"name"`
+		S    float64 `json:"seconds"`
+	}
+	var slowest []slow
+	var failed []*OblResult
+	for _, r := range mainRes {
+		k := claimKey(r.Obl.Name)
+		if !claimSeen[k] {
+			claimSeen[k] = true
+			claimOK[k] = true
+		}
+		if !r.OK {
+			claimOK[k] = false
+			failed = append(failed, r)
+		} else {
+			bySolver[r.Res.Solver]++
+		}
+		solverTime += r.Res.TimeS
+		slowest = append(slowest, slow{r.Obl.Name, r.Res.TimeS})
+	}
+	sort.Slice(slowest, func(i, j int) bool { return slowest[i].S > slowest[j].S })
+	if len(slowest) > 5 {
+		slowest = slowest[:5]
+	}
+	// engine faults
+	engineFault := false
+	for i, r := range canRes {
+		if r.OK == true && !r.Obl.ExpectSat {
+			// a canary obligation that verifies is fine individually; the canary as a whole
+			// must have at least one failing obligation (checked below)
+		}
+		_ = i
+	}
+	canaryStatus := map[string]string{}
+	{
+		failedBy := map[string]bool{}
+		for _, r := range canRes {
+			if !r.OK && r.Res.Status == "sat" {
+				failedBy[r.Obl.Func] = true
+			}
+		}
+		for _, n := range canaryNames {
+			if failedBy[n] {
+				canaryStatus[n] = "refuted (as it must be)"
+			} else {
+				canaryStatus[n] = "NOT refuted: engine fault"
+				engineFault = true
+			}
+		}
+	}
+	for _, r := range mainRes {
+		if r.Res.Status == "error" {
+			engineFault = true
+			fmt.Fprintf(os.Stderr, "ENGINE FAULT: solver rejected %s: %s\n", r.Obl.Name, r.Res.Model)
+		}
+	}
+
+	if update {
+		var keys []string
+		for k, ok := range claimOK {
+			if ok {
+				keys = append(keys, k)
+			}
+		}
+		sort.Strings(keys)
+		os.MkdirAll(filepath.Dir(basePath), 0o755)
+		if err := writeJSON(basePath, keys); err != nil {
+			fmt.Fprintln(os.Stderr, err)
+			return 2
+		}
+		fmt.Printf("baseline for %s: %d claims written (%d obligations, %d failing and left unclaimed)\n", prop, len(keys), len(mainRes), len(failed))
+		for _, r := range failed {
+			fmt.Printf("  unclaimed: %s [%s] %s\n", r.Obl.Name, r.Res.Status, r.Obl.Src)
+		}
+		for f, errs := range fnErrors {
+			fmt.Printf("  not verified: %s: %s\n", f, strings.Join(errs, "; "))
+		}
+		haveBase = true
+		for _, k := range keys {
+			baseSet[k] = true
+		}
+	}
+	if !haveBase {
+		fmt.Fprintln(os.Stderr, "ENGINE FAULT: no baseline for", prop)
+		return 2
+	}
+
+	// decide
+	replayDir := filepath.Join(verifDir, "out", "replay", prop)
+	if d := os.Getenv("GOVC_REPLAY_DIR"); d != "" {
+		replayDir = d
+	}
+	os.MkdirAll(replayDir, 0o755)
+	nViol := 0
+	var violLines []string
+	var knownLines []string
+	var unclaimed []string
+	reported := map[string]bool{}
+	discharged, claimedObls := 0, 0
+	for _, r := range mainRes {
+		k := claimKey(r.Obl.Name)
+		if !baseSet[k] {
+			if !r.OK {
+				unclaimed = append(unclaimed, r.Obl.Name+" ["+r.Res.Status+"]")
+			}
+			continue
+		}
+		claimedObls++
+		if r.OK {
+			discharged++
+			continue
+		}
+		if kf, ok := knownSet[k]; ok {
+			if !reported[k] {
+				knownLines = append(knownLines, fmt.Sprintf("KNOWN-FINDING: property=%s %s: %s", prop, k, kf.What))
+				reported[k] = true
+			}
+			discharged++ // decided: recorded finding, not an open obligation
+			continue
+		}
+		if reported[k] {
+			continue
+		}
+		reported[k] = true
+		nViol++
+		path := filepath.Join(replayDir, sanitizeFile(r.Obl.Name)+".json")
+		rep := e.Replay(r, scratch)
+		rep["obligation"] = r.Obl.Name
+		rep["clause"] = r.Obl.Src
+		rep["solver_status"] = r.Res.Status
+		rep["solver_tried"] = r.Res.Tried
+		writeJSON(path, rep)
+		line := fmt.Sprintf("VIOLATION property=%s replay=%s", prop, path)
+		if rep["confirmed_on_real_code"] != true {
+			line += " no-failing-input-found"
+		}
+		violLines = append(violLines, line)
+	}
+	// functions that could not be analysed, or baseline claims with no obligation left
+	for f, errs := range fnErrors {
+		hasBase := false
+		for b := range baseSet {
+			if strings.HasPrefix(b, f+"#") || (strings.HasPrefix(f, "lemma:") && b == f) {
+				hasBase = true
+			}
+		}
+		if hasBase {
+			nViol++
+			path := filepath.Join(replayDir, sanitizeFile(f)+".undecided.json")
+			writeJSON(path, map[string]any{"function": f, "undecided_because": errs,
+				"note": "obligations of this function discharged on the baseline tree and can no longer be generated"})
+			violLines = append(violLines, fmt.Sprintf("VIOLATION property=%s replay=%s no-failing-input-found", prop, path))
+		} else {
+			unclaimed = append(unclaimed, f+": "+strings.Join(errs, "; "))
+		}
+	}
+	for b := range baseSet {
+		if !claimSeen[b] && (strings.Contains(b, "#post") || strings.Contains(b, "#frame") || strings.HasPrefix(b, "lemma:")) {
+			fn := strings.SplitN(b, "#", 2)[0]
+			if _, bad := fnErrors[fn]; bad {
+				continue
+			}
+			nViol++
+			path := filepath.Join(replayDir, sanitizeFile(b)+".missing.json")
+			writeJSON(path, map[string]any{"claim": b, "undecided_because": "no obligation with this claim is generated any more (contract clause or exit disappeared)"})
+			violLines = append(violLines, fmt.Sprintf("VIOLATION property=%s replay=%s no-failing-input-found", prop, path))
+		}
+	}
+
+	// bounded stand-ins
+	var bounded []map[string]any
+	for _, s := range cfg.Standins {
+		if s.Tier == "thorough" && tier != "thorough" {
+			continue
+		}
+		res := runStandin(prop, tier, seed, s.Name, s.Cmd, s.Bound, known)
+		bounded = append(bounded, res.info)
+		for _, l := range res.known {
+			knownLines = append(knownLines, l)
+		}
+		for _, v := range res.violations {
+			nViol++
+			violLines = append(violLines, v)
+		}
+		if res.fault {
+			engineFault = true
+		}
+	}
+
+	// evidence
+	var samples []map[string]any
+	for i, r := range mainRes {
+		if i%(len(mainRes)/6+1) == 0 {
+			samples = append(samples, map[string]any{"obligation": r.Obl.Name, "kind": r.Obl.Kind, "clause": r.Obl.Src,
+				"answer": r.Res.Status, "solver": r.Res.Solver, "seconds": r.Res.TimeS, "smt_bytes": len(r.Obl.Query)})
+		}
+	}
+	trusted := []string{"govc itself (SSA->SMT translation, contract parser), go/ssa, z3/cvc5"}
+	for k := range e.trusted {
+		trusted = append(trusted, "assumed contract: "+shortName(k))
+	}
+	for k := range e.pureUsed {
+		trusted = append(trusted, "assumed side-effect free, result unknown: "+k)
+	}
+	sort.Strings(trusted[1:])
+	var assumptions []string
+	for n := range notes {
+		assumptions = append(assumptions, n)
+	}
+	sort.Strings(assumptions)
+	assumptions = append(assumptions, "termination is not verified (except where a loop has a decreases clause)",
+		"memory exhaustion, stack depth, gas, events, logs and telemetry are not modelled",
+		"machine integers have exact Go wrap-around semantics; *big.Int values are unbounded mathematical integers",
+		"initial heap is well formed: pointers stored in pre-existing objects point to pre-existing objects")
+	assumptions = append(assumptions, cfg.NotDecided...)
+	ev := Evidence{PropertyID: prop, Tier: tier, Seed: seed, Level: "proof", WallS: time.Since(t0).Seconds(), Violations: nViol,
+		Assumptions: assumptions,
+		Coverage: map[string]any{
+			"obligations": claimedObls, "discharged": discharged,
+			"checker_cmd":              fmt.Sprintf("/verif/bin/govc check %s %s", prop, tier),
+			"trusted_base":             trusted,
+			"functions_under_contract": funcsUnder,
+			"functions":                len(funcsUnder),
+			"lemma_obligations":        nLemma,
+			"by_solver":                bySolver,
+			"solver_time_s":            solverTime,
+			"load_time_s":              loadS,
+			"slowest":                  slowest,
+			"unclaimed":                unclaimed,
+			"canaries":                 canaryStatus,
+			"known_findings":           knownLines,
+			"samples":                  samples,
+			"bounded":                  bounded,
+			"not_decided":              cfg.NotDecided,
+			"explanation":              "obligations are generated from /repo's current source by symbolic execution of go/ssa against the //@ contracts in zz_verif_contracts.go (tag verif) and discharged by SMT; 'obligations' counts those whose claim is in the committed baseline, 'unclaimed' lists generated obligations outside it",
+		}}
+	evDir := filepath.Join(verifDir, "evidence")
+	if d := os.Getenv("GOVC_EVIDENCE_DIR"); d != "" {
+		evDir = d
+	}
+	os.MkdirAll(evDir, 0o755)
+	if err := writeJSON(filepath.Join(evDir, prop+".json"), ev); err != nil {
+		fmt.Fprintln(os.Stderr, err)
+		return 2
+	}
+	for _, l := range knownLines {
+		fmt.Println(l)
+	}
+	for _, l := range violLines {
+		fmt.Println(l)
+	}
+	fmt.Printf("%s %s: %d/%d claimed obligations discharged over %d functions (%d lemma obligations), %d unclaimed, %d violations, %.1fs\n",
+		prop, tier, discharged, claimedObls, len(funcsUnder), nLemma, len(unclaimed), nViol, time.Since(t0).Seconds())
+	if nViol > 0 {
+		return 1
+	}
+	if engineFault {
+		fmt.Fprintln(os.Stderr, "ENGINE FAULT (see canaries / solver errors)")
+		for n, s := range canaryStatus {
+			fmt.Fprintln(os.Stderr, "  canary", n, s)
+		}
+		return 2
+	}
+	if nViol > 0 {
+		return 1
+	}
+	return 0
+}
+
+type standinResult struct {
+	info       map[string]any
+	violations []string
+	known      []string
+	fault      bool
+}
+
+// runStandin runs a bounded stand-in command. Protocol: the command prints lines
+//   STANDIN evaluations=<n> distinct=<n> rule=<text>
+//   FAIL <finding-id> <description>      (one per failing input)
+// and exits 0 (no failure), 1 (failures) or anything else (fault).
+func runStandin(prop, tier string, seed int, name string, argv []string, bound string, known KnownFile) standinResult {
+	t0 := time.Now()
+	cmd := exec.Command(argv[0], argv[1:]...)
+	cmd.Dir = verifDir
+	cmd.Env = append(os.Environ(), "VERIF_TIER="+tier, fmt.Sprintf("VERIF_SEED=%d", seed), "VERIF_PROP="+prop)
+	var out bytes.Buffer
+	cmd.Stdout = &out
+	cmd.Stderr = &out
+	err := cmd.Run()
+	res := standinResult{info: map[string]any{"name": name, "bound": bound, "label": "bounded (never counted as proved)", "wall_s": time.Since(t0).Seconds()}}
+	code := 0
+	if err != nil {
+		if ee, ok := err.(*exec.ExitError); ok {
+			code = ee.ExitCode()
+		} else {
+			code = 99
+		}
+	}
+	knownIDs := map[string]KnownFinding{}
+	for _, k := range known.Findings {
+		if k.Property == prop && k.Standin != "" {
+			knownIDs[k.Standin] = k
+		}
+	}
+	replayDir := filepath.Join(verifDir, "out", "replay", prop)
+	os.MkdirAll(replayDir, 0o755)
+	for _, line := range strings.Split(out.String(), "\n") {
+		if strings.HasPrefix(line, "STANDIN ") {
+			for _, f := range strings.Fields(line)[1:] {
+				if kv := strings.SplitN(f, "=", 2); len(kv) == 2 {
+					if n, err := strconv.Atoi(kv[1]); err == nil {
+						res.info[kv[0]] = n
+					}
+				}
+			}
+			if i := strings.Index(line, "rule="); i >= 0 {
+				res.info["rule"] = line[i+5:]
+			}
+		}
+		if strings.HasPrefix(line, "FAIL ") {
+			parts := strings.SplitN(line, " ", 3)
+			id := parts[1]
+			desc := ""
+			if len(parts) > 2 {
+				desc = parts[2]
+			}
+			if k, ok := knownIDs[id]; ok {
+				res.known = append(res.known, fmt.Sprintf("KNOWN-FINDING: property=%s %s: %s", prop, id, k.What))
+				continue
+			}
+			path := filepath.Join(replayDir, "standin_"+sanitizeFile(name+"_"+id)+".json")
+			writeJSON(path, map[string]any{"standin": name, "finding": id, "failing_input": desc, "confirmed_on_real_code": true})
+			res.violations = append(res.violations, fmt.Sprintf("VIOLATION property=%s replay=%s", prop, path))
+		}
+	}
+	if code != 0 && code != 1 {
+		res.fault = true
+		tail := out.String()
+		if len(tail) > 2000 {
+			tail = tail[len(tail)-2000:]
+		}
+		fmt.Fprintf(os.Stderr, "stand-in %s failed to run (exit %d):\n%s\n", name, code, tail)
+	}
+	if code == 1 && len(res.violations) == 0 && len(res.known) == 0 {
+		res.fault = true
+		fmt.Fprintf(os.Stderr, "stand-in %s exited 1 without FAIL lines\n", name)
+	}
+	res.info["failures"] = len(res.violations)
+	return res
+}
+
+func cmdSelftest(args []string) int { return runSelftest(args) }
